@@ -107,4 +107,66 @@ PROPS = {
              "distinct = distinct case line; non-trivial = at least one frame or error event (crc: every case)",
         assumptions=["serial line delivers bytes in order", "inter-frame timing (t3.5) is not used by the code and not modelled"],
     ),
+    "C14": dict(
+        audit_modules=["RodbusModel.Audit.C14"],
+        required_theorems=["Rodbus.C14.kth_delay", "Rodbus.C14.kth_delay_created", "Rodbus.C14.kth_delay_after_reset",
+                           "Rodbus.C14.disconnect_is_min", "Rodbus.C14.no_overflow", "Rodbus.C14.delay_le_max"],
+        suites=[dict(gen="retry", n=(4000, 300000),
+                     exhaustive="11x11 lattice of special (min,max) durations incl. 0, Duration::MAX, MAX/2, MAX/2+1")],
+        level_text="Proof: kth_delay (by induction on the call sequence, for all (min,max) with max representable and all k: the k-th "
+                   "consecutive after_failed_connect since creation/reset returns min*2^(k-1) capped at max), disconnect_is_min, "
+                   "kth_delay_after_reset, delay_le_max, no_overflow (the saturating doubling never exceeds Duration::MAX). Tie: the public "
+                   "doubling_retry_strategy object is run on the same (min,max) and call sequences as the model and as a stateless closed-form "
+                   "specification. Task-level part (announced delay = waited delay, reset on connect) is exercised by the lifecycle suite (C13).",
+        level_note="Trusted: Lean kernel; hand-written 20-line model of retry.rs tied by differential runs; std::time::Duration arithmetic "
+                   "(saturating_mul, min). The use of the strategy by the channel tasks is not proved here (see C13).",
+        technique="Lean 4 induction over call sequences + differential run of the public strategy object",
+        classify=lambda c, i: ["panic" if "panic" in i else "ok", "len=%d" % min(9, i.count(",") // 10)],
+        nontrivial=lambda c, i: i != "-", finding_key=no_key,
+        rule="cases = special-value lattice + seeded random (min,max) and op strings over {f,d,r}; distinct = distinct case line; "
+             "non-trivial = at least one delay returned",
+        assumptions=["durations are modelled as natural numbers of nanoseconds"],
+    ),
+    "C15": dict(
+        audit_modules=["RodbusModel.Audit.C15"],
+        required_theorems=["Rodbus.C15.tracker_bound", "Rodbus.C15.evicts_oldest", "Rodbus.C15.remove_absent",
+                           "Rodbus.C15.fresh_id"],
+        suites=[dict(gen="trk", n=(3000, 200000),
+                     exhaustive="all op sequences of length <= 4 (5 thorough) over {add, remove 0, remove 1, remove 2} for max_sessions 0..4")],
+        level_text="Proof: tracker_bound (for every add/remove sequence the number of live sessions is <= max(1,max_sessions)), evicts_oldest "
+                   "(a full tracker evicts exactly the smallest id = the earliest-added live session, ids strictly increase), remove_absent "
+                   "(late removal of an evicted id is a no-op), fresh_id. Tie: the production SessionTracker is driven through the verif hook on "
+                   "the same op sequences. The network-level parts (isolation between sessions, shutdown closes all sessions, evicted "
+                   "session actually closed) are exercised over loopback by the srvnet suite.",
+        level_note="Partial: session isolation and shutdown are runtime behaviour (tokio tasks, sockets); they are exercised, not proved. "
+                   "Trusted: Lean kernel, hand-written tracker model tied by differential runs.",
+        technique="Lean 4 invariant proof over add/remove sequences + differential run of the production SessionTracker + loopback scenarios",
+        classify=lambda c, i: ["max=" + c.split(" ")[1], "evictions" if True else ""],
+        nontrivial=lambda c, i: "+" in i, finding_key=no_key,
+        rule="cases = exhaustive short sequences + seeded random sequences (max 0,1,2,3,4,8,100); distinct = distinct case line; "
+             "non-trivial = at least one add",
+        assumptions=["eviction in the real server is asynchronous: the evicted task ends at its next poll"],
+    ),
+    "C16": dict(
+        audit_modules=["RodbusModel.Audit.C16"],
+        required_theorems=["Rodbus.C16.matches_spec", "Rodbus.C16.wildcard_parse_iff", "Rodbus.C16.wrong_field_count_rejected",
+                           "Rodbus.C16.parsed_fields_are_octets", "Rodbus.C16.splitDots_join"],
+        suites=[dict(gen="flt", n=(4000, 300000)),
+                dict(gen="fltm", n=(3000, 200000),
+                     exhaustive="all 4^4 wildcard patterns over {*,0,127,255} x 5 peers (3^4+1 peers thorough)")],
+        level_text="Proof: matches_spec (AddressFilter::matches decides exactly the declarative meaning for every filter and peer; IPv6 never "
+                   "matches a wildcard), wildcard_parse_iff (a string parses iff it splits on '.' into exactly four fields each '*' or a numeral "
+                   "accepted by u8::from_str, and the result is their meaning), parsed_fields_are_octets, splitDots_join/no_dot. Tie: the Rust "
+                   "parser and matcher are run on grammar-aware strings (signs, leading zeros, 255/256, empty fields, non-ASCII digits) and a "
+                   "boundary lattice of patterns x peers. Accept-path part (every server variant, Rust API and C ABI) is exercised over loopback.",
+        level_note="Reading: numeric fields accept what Rust's u8::from_str accepts (optional '+', leading zeros). Partial: that every server variant "
+                   "consults the filter before serving is exercised over loopback / via the C ABI, not proved. Trusted: Lean kernel, hand-written "
+                   "model of address_filter.rs and of u8::from_str.",
+        technique="Lean 4 iff-characterisation of parser and matcher + differential runs on grammar-aware strings",
+        classify=lambda c, i: [i[:3]],
+        nontrivial=lambda c, i: i.startswith("ok") or i == "true", finding_key=no_key,
+        rule="flt: fixed edge strings + seeded grammar-aware wildcard strings (about half valid); fltm: pattern x peer lattice + random; "
+             "distinct = distinct case line; non-trivial = the string parsed / the filter matched",
+        assumptions=["IPv6 peers are compared by their canonical text form in the model"],
+    ),
 }
